@@ -252,6 +252,44 @@ def body_history(k):
     return body
 
 
+def body_builder_history(k, dup_bias=None):
+    """black-box bounded cross-check: PortableRegistryBuilder::new(), then k register_type calls over symbolic values (plus next_type_id / get / finish),
+    all executed from MIR whatever the builder's fields are, against a python list model"""
+    def body(M):
+        def nm(M, c):
+            if 'usize' in c: return MapV(z3.K(T, z3.BoolVal(False)), z3.K(T, bv(0, 64)))
+            if re.search(r', u32>', c): return MapV(z3.K(T, z3.BoolVal(False)), z3.K(T, bv(0, 32)))
+            return None
+        M.aux['new_map'] = nm
+        b = Cell(M.run_fn(M.resolve('PortableRegistryBuilder::new'), []))
+        xs = [z3.Const('x%d' % i, T) for i in range(k)]
+        model, viol, trace = [], [], []
+        for x in xs:
+            nxt = M.run_fn(M.resolve('PortableRegistryBuilder::next_type_id'), [Ref(b)])
+            r = M.run_fn(M.resolve('PortableRegistryBuilder::register_type'), [Ref(b), x])
+            hit = None
+            for j, y in enumerate(model):
+                if M.concrete_bool(x == y, 'model.lookup'): hit = j; break
+            viol.append(('next_type_id == number of values', nxt != len(model)))
+            if hit is None:
+                model.append(x); viol.append(('new value gets the announced id', r != len(model) - 1)); trace.append(len(model) - 1)
+            else:
+                viol.append(('equal value gets its first id', r != hit)); trace.append(hit)
+        for j in range(len(model) + 1):
+            g = M.run_fn(M.resolve('PortableRegistryBuilder::get'), [Ref(b), bv(j, 32)])
+            if j < len(model): viol.append(('get(i) is the stored value', deref(M, payload(g, 1)[0]) != model[j] if g.discr == 1 else z3.BoolVal(True)))
+            else: viol.append(('get(len) is None', z3.BoolVal(g.discr != 0)))
+        fin = M.run_fn(M.resolve('PortableRegistryBuilder::finish'), [Ref(b)])
+        ts = seq_elems(M, fin[0])
+        viol.append(('finish lists every value once', z3.BoolVal(len(ts) != len(model))))
+        for j, pt in enumerate(ts[:len(model)]):
+            viol.append(('finish: id == index', pt[0] != j)); viol.append(('finish: value at its index', pt[1] != model[j]))
+        m = M.model(z3.Or([c for _, c in viol]))
+        if m is None: M.emit('ok', distinct=len(model), pattern=trace)
+        else: M.emit('cex', what='builder.history', pattern=trace, failed=sorted({w for w, c in viol if z3.is_true(m.eval(c, model_completion=True))})[:4])
+    return body
+
+
 # ----------------------------------------------------------------------------- native replay
 def list_model(pre, op, arg, sym):
     if op in ('intern_or_get', 'register_type'):
@@ -271,6 +309,8 @@ def replay_case(ctx, case):
         a = nat.ask({'op': 'builder_finish', 'n': case['n']}); return not a.get('ok', False), None
     if w == 'interner.history':
         a = nat.ask({'op': 'interner_history', 'values': case['values']}); return not a.get('ok', False), None
+    if w == 'builder.history':
+        a = nat.ask({'op': 'builder_history', 'pattern': case['pattern']}); return (a.get('panic') or a.get('crashed') or not a.get('ok', False)), None
     if 'pre' not in case: return False, None
     kind, op = w.split('.')
     a = nat.ask({'op': 'table_step', 'kind': kind, 'pre': case['pre'], 'step': op, 'arg': case['arg'], 'sym': min(case['sym'], 64)})
@@ -314,7 +354,7 @@ def translator_validation(ctx):
 def run(ctx):
     Tq = ctx.thorough()
     ctx.bounds = {'interner length': '< 2^32 (the code casts indices with `as u32`; beyond that ids wrap)', 'finish: number of registered types': 6 if Tq else 4,
-                  'history cross-check: operations': 5 if Tq else 3}
+                  'history cross-check: operations': '5 / 3 (interner), 5 / 4 (builder, black box from new())'}
     ctx.outside = ['interners with 2^32 or more elements', 'Ord implementations of T inconsistent with Eq']
     ctx.assumptions = ['Ord on the element type is a total order consistent with == (BTreeMap modelled as a partial function keyed by equality)',
                        'representation invariant: map and vec mutually inverse on [0,len) - preserved by every operation (checked), holds for new() (checked)']
@@ -349,13 +389,17 @@ def run(ctx):
         h = run_harness(ctx, 'interner.history-%d' % k, body_history(k), subst=SUBST)
         cexs += [r for r in h.results if r['kind'] == 'cex']
         ctx.obligations['%d intern_or_get calls from empty agree with the list model (%d paths)' % (k, sum(h.kinds.values()))] = 'unsat' if not h.kinds.get('cex') else 'sat'
+    for k in range(1, (5 if Tq else 4) + 1):
+        h = run_harness(ctx, 'builder.history-%d' % k, body_builder_history(k), subst=SUBST)
+        cexs += [r for r in h.results if r['kind'] == 'cex']
+        ctx.obligations['builder: new() then %d register_type calls (+ next_type_id/get/finish) agree with the list model (%d value-equality patterns)' % (k, sum(h.kinds.values()))] = 'unsat' if not h.kinds.get('cex') else 'sat'
     hneg = run_harness(ctx, 'negative-control', body_step('intern_or_get', False, wrong=True), subst=SUBST); ctx.harnesses.pop()
     if not any(r['kind'] == 'cex' for r in hneg.results): raise CheckInconclusive('negative control (returned id == len+1) was not refuted')
     ctx.notes.append('negative control (post-condition "returned id == len + 1") refuted as required')
     unreal = []
     for c in cexs:
         case = {k: v for k, v in c.items() if k != 'kind'}
-        if 'pre' not in case and case['what'] not in ('builder.finish', 'interner.history'):
+        if 'pre' not in case and case['what'] not in ('builder.finish', 'interner.history', 'builder.history'):
             unreal.append(case); continue
         rep, role = replay_case(ctx, case)
         ctx.report_case(case, rep, role)
